@@ -244,6 +244,8 @@ def candidates(cfg, model):
             add('add_eltorito', bootfile_path=iso_file, rr_bootcatname='a/b')
     if model.boot:
         add('add_isohybrid', part_entry=7)
+        add('add_isohybrid', geometry_sectors=0)
+        add('add_isohybrid', geometry_heads=257)
         add('add_isohybrid', geometry_heads=1000)
         add('add_isohybrid', mac=True, efi=False)
         add('add_isohybrid', mbr_id=1 << 40)
